@@ -23,7 +23,7 @@ EPS = 1e-25  # distributed_shampoo._EPSILON (asserted below)
 GT_NONE, GT_SGD, GT_ADAGRAD, GT_RMSPROP, GT_RMSPROP_N, GT_SQRT_N, GT_ADAGRAD_N = range(7)
 
 
-def gen_grads(rng, shapes, steps, zero_at=None):
+def gen_grads(rng, shapes, steps, zero_at=None, scale_exps=None):
   hist = []
   for t in range(steps):
     gs = []
@@ -34,7 +34,8 @@ def gen_grads(rng, shapes, steps, zero_at=None):
         vals[0] = 1
       if zero_at is not None and zero_at == (t, k):
         vals = [0] * n
-      gs.append(np.array(vals, dtype=np.float32).reshape(sh))
+      sc = 2.0 ** scale_exps[t] if scale_exps else 1.0       # power of two: exact in float32
+      gs.append((np.array(vals, dtype=np.float32) * np.float32(sc)).reshape(sh))
     hist.append(gs)
   return hist
 
@@ -119,7 +120,7 @@ def case_ds(case, res, fail):
   shapes = [tuple(s) for s in case["shapes"]]
   rng = common.SplitMix64(case["seed"])
   za = tuple(case["zero_at"]) if case.get("zero_at") else None
-  hist = gen_grads(rng, shapes, steps, za)
+  hist = gen_grads(rng, shapes, steps, za, case.get("scale_exps"))
   params = [jnp.zeros(s, jnp.float32) for s in shapes]
   cr = dict(full=0, quant=0).get(mode, case.get("cr", 1))
   kw = dict(block_size=case["block"], beta1=0.0, beta2=case["beta2"],
@@ -213,7 +214,7 @@ def case_tf(case, res, fail):
   shapes = [tuple(s) for s in case["shapes"]]
   rng = common.SplitMix64(case["seed"])
   za = tuple(case["zero_at"]) if case.get("zero_at") else None
-  hist = gen_grads(rng, shapes, steps, za)
+  hist = gen_grads(rng, shapes, steps, za, case.get("scale_exps"))
   params = {("p%d" % k): jnp.zeros(s, jnp.float32) for k, s in enumerate(shapes)}
   beta = case["beta"] if graft in ("rmsprop", "adafactor") else 0.0
   gopts = grafting.Options(
